@@ -102,6 +102,25 @@ pub fn yield_point(site: &'static str) {
     }
 }
 
+thread_local! {
+    static UNGUARDED: std::cell::Cell<bool> = const { std::cell::Cell::new(false) };
+}
+
+/// Declares that the calling thread holds no index guard and no raw lock while it calls into
+/// the store (the harness drives an internal function directly): seams that are unsafe to park
+/// at under a hash-index entry guard become scheduling points for this thread.
+pub fn set_unguarded(on: bool) {
+    UNGUARDED.with(|u| u.set(on));
+}
+
+/// Named preemption point that is only taken by threads that declared themselves unguarded.
+#[inline]
+pub fn yield_point_unguarded(site: &'static str) {
+    if UNGUARDED.with(|u| u.get()) {
+        yield_point(site);
+    }
+}
+
 #[inline]
 pub fn fail_at(site: &'static str) -> bool {
     controller().is_some_and(|c| c.fail_at(site))
